@@ -163,6 +163,7 @@ fn parse_dump<F: Fl>(s: &str, batch: &Array2<F>) -> Result<(DT, bool), String> {
 
 // ---------------------------------------------------------------------------------------------
 // one dataset against the three index kinds
+#[derive(Clone)]
 struct QuerySpec { q: Vec<f64>, ks: Vec<usize>, radii: Vec<RadSpec> }
 #[derive(Clone, Copy, Debug)]
 enum RadSpec { Abs(f64), DistTo(usize, i32 /* ulps */, f64 /* factor */), Beyond }
@@ -178,6 +179,9 @@ struct Spec {
     leaf: usize,
     queries: Vec<QuerySpec>,
     ship_coords: bool,
+    /// Some((count, seed)): further queries are aimed at the spheres of the nodes of the ball tree that the
+    /// implementation builds for this batch (read from its Debug dump), see `aim_queries`
+    aim: Option<(usize, u64)>,
 }
 
 fn next_ulps<F: Fl>(x: F, k: i32) -> F {
@@ -197,7 +201,7 @@ fn observe<F: Fl>(r: Result<Result<Vec<(ndarray::ArrayView1<F>, usize)>, NnError
     }
 }
 
-struct CaseOut { coq: String, tags: Vec<String>, desc: String, suspects: usize, hash: u64 }
+struct CaseOut { coq: String, tags: Vec<String>, desc: String, suspects: usize, hash: u64, nqueries: usize, nknn: usize, nrange: usize, aimed: usize, raw_answers: usize }
 
 fn run_spec<F: Fl, D: Distance<F> + Debug + 'static>(sp: &Spec, dist: D) -> CaseOut {
     let n = sp.x.len();
@@ -220,12 +224,13 @@ fn run_spec<F: Fl, D: Distance<F> + Debug + 'static>(sp: &Spec, dist: D) -> Case
     let mut tree_coq = "None".to_string();
     let mut rows_ok = true;
     let mut notes: Vec<String> = vec![];
+    let mut dump: Option<DT> = None;
     if sp.leaf > 0 && d > 0 {
         let dd = dist.clone();
         let b = &batch;
         match guarded(AssertUnwindSafe(move || BallTreeIndex::new(b, sp.leaf, dd).map(|t| format!("{:?}", t)))) {
             Ok(Ok(s)) => match parse_dump::<F>(&s, &batch) {
-                Ok((t, ok)) => { tree_coq = format!("Some {}", dt_coq(&t)); rows_ok = ok; }
+                Ok((t, ok)) => { tree_coq = format!("Some {}", dt_coq(&t)); rows_ok = ok; dump = Some(t); }
                 Err(e) => notes.push(format!("tree dump not parsed: {}", e)),
             },
             Ok(Err(e)) => notes.push(format!("BallTreeIndex::new: {:?}", e)),
@@ -233,6 +238,33 @@ fn run_spec<F: Fl, D: Distance<F> + Debug + 'static>(sp: &Spec, dist: D) -> Case
         }
     }
     let all_ok = bstats.iter().all(|b| *b == BStat::Ok);
+    // queries aimed at the nodes of the dumped tree (stream deep_surface)
+    let mut queries: Vec<QuerySpec> = sp.queries.clone();
+    let mut aimed = 0usize;
+    if let (Some((cnt, seed)), Some(t)) = (sp.aim, dump.as_ref()) {
+        let xs: Vec<Vec<f64>> = sp.x.iter().map(|r| r.iter().map(|v| F::of(*v).f64()).collect()).collect();
+        let more = aim_queries(t, &xs, sp.met, cnt, seed, F::F32, sp.stream == "tiny_scale");
+        aimed = more.len();
+        queries.extend(more);
+    }
+    // the external crate behind KdTreeIndex, built the way KdTreeIndex::new builds it (capacity = leaf size,
+    // rows added in order); its raw answers are shipped so that the wrapper model can be applied to them
+    let flat: Vec<F> = batch.iter().cloned().collect();
+    let kd_raw: Option<kdtree::KdTree<F, usize, &[F]>> = if sp.leaf > 0 && d > 0 {
+        let fl = &flat;
+        guarded(AssertUnwindSafe(move || {
+            let mut t = kdtree::KdTree::with_capacity(d.max(1), sp.leaf);
+            for (i, ch) in fl.chunks(d).enumerate() { if t.add(ch, i).is_err() { return None; } }
+            Some(t)
+        })).ok().flatten()
+    } else { None };
+    let raw_coq = |r: Option<Vec<(F, usize)>>| -> String {
+        match r {
+            Some(v) => format!("(Some ({}, {}))", cvec64(&v.iter().map(|x| x.0.f64()).collect::<Vec<f64>>()), cvecn(&v.iter().map(|x| x.1).collect::<Vec<usize>>())),
+            None => "None".to_string(),
+        }
+    };
+    let mut raw_answers = 0usize;
     let mut qterms = vec![];
     let mut qdesc = vec![];
     let mut suspects = 0usize;
@@ -243,7 +275,7 @@ fn run_spec<F: Fl, D: Distance<F> + Debug + 'static>(sp: &Spec, dist: D) -> Case
     let mut has_k0 = false;
     let mut near_border = false;
     if all_ok {
-        for qs in sp.queries.iter() {
+        for qs in queries.iter() {
             let q: Array1<F> = Array1::from(qs.q.iter().map(|v| F::of(*v)).collect::<Vec<F>>());
             let wellformed = q.len() == d;
             let (rd, dd): (Vec<F>, Vec<F>) = if wellformed {
@@ -269,8 +301,13 @@ fn run_spec<F: Fl, D: Distance<F> + Debug + 'static>(sp: &Spec, dist: D) -> Case
                 }
                 if wellformed { suspects += res.iter().filter(|o| !knn_plausible(o, &rd, k)).count(); }
                 else { suspects += res.iter().filter(|o| !matches!(o, Outc::Err)).count(); }
+                let raw: Option<Vec<(F, usize)>> = if wellformed { kd_raw.as_ref().and_then(|t| {
+                    let (qq, dd) = (&q, &dist);
+                    guarded(AssertUnwindSafe(|| t.nearest(qq.as_slice().unwrap(), k, &|a: &[F], b: &[F]| dd.rdistance(ndarray::aview1(a), ndarray::aview1(b)))
+                        .ok().map(|v| v.into_iter().map(|(dv, i)| (dv, *i)).collect::<Vec<_>>()))).ok().flatten() }) } else { None };
+                if raw.is_some() { raw_answers += 1; }
                 kdesc.push(format!("{{\"k\": {}, \"lin\": {}, \"kd\": {}, \"ball\": {}}}", k, outc_desc(&res[0]), outc_desc(&res[1]), outc_desc(&res[2])));
-                knn_terms.push(format!("KO {}%N {} {} {}", k, outc_coq(&res[0]), outc_coq(&res[1]), outc_coq(&res[2])));
+                knn_terms.push(format!("KO {}%N {} {} {} {}", k, outc_coq(&res[0]), outc_coq(&res[1]), outc_coq(&res[2]), raw_coq(raw)));
             }
             let mut rng_terms = vec![];
             let mut rdesc = vec![];
@@ -289,8 +326,13 @@ fn run_spec<F: Fl, D: Distance<F> + Debug + 'static>(sp: &Spec, dist: D) -> Case
                 if wellformed { suspects += res.iter().filter(|o| !range_plausible(o, &rd, rr)).count(); }
                 else { suspects += res.iter().filter(|o| !matches!(o, Outc::Err)).count(); }
                 rdesc.push(format!("{{\"radius\": {:e}, \"lin\": {}, \"kd\": {}, \"ball\": {}}}", r.f64(), outc_desc(&res[0]), outc_desc(&res[1]), outc_desc(&res[2])));
-                rng_terms.push(format!("RO {} {} {} {} {}",
-                    sf64(r.f64()), sf64(rr.f64()), outc_coq(&res[0]), outc_coq(&res[1]), outc_coq(&res[2])));
+                let raw: Option<Vec<(F, usize)>> = if wellformed { kd_raw.as_ref().and_then(|t| {
+                    let (qq, dd) = (&q, &dist);
+                    guarded(AssertUnwindSafe(|| t.within(qq.as_slice().unwrap(), rr, &|a: &[F], b: &[F]| dd.rdistance(ndarray::aview1(a), ndarray::aview1(b)))
+                        .ok().map(|v| v.into_iter().map(|(dv, i)| (dv, *i)).collect::<Vec<_>>()))).ok().flatten() }) } else { None };
+                if raw.is_some() { raw_answers += 1; }
+                rng_terms.push(format!("RO {} {} {} {} {} {}",
+                    sf64(r.f64()), sf64(rr.f64()), outc_coq(&res[0]), outc_coq(&res[1]), outc_coq(&res[2]), raw_coq(raw)));
             }
             let ship_dd = qterms.is_empty();
             qterms.push(format!("QR {} {} {} [{}] [{}]",
@@ -301,10 +343,21 @@ fn run_spec<F: Fl, D: Distance<F> + Debug + 'static>(sp: &Spec, dist: D) -> Case
             qdesc.push(format!("{{\"q\": {:?}, \"knn\": [{}], \"range\": [{}]}}", qs.q, kdesc.join(", "), rdesc.join(", ")));
         }
     }
+    // decidable input class of finding F-C07-1: some squared coordinate difference (row - row or query - row)
+    // is non-zero and below 2^-1000, i.e. far below the normal range of the format
+    {
+        let lim = if F::F32 { 2.0f64.powi(-70) } else { 2.0f64.powi(-500) };
+        let rows: Vec<Vec<f64>> = sp.x.iter().map(|r| r.iter().map(|v| F::of(*v).f64()).collect()).collect();
+        let mut pts: Vec<Vec<f64>> = queries.iter().filter(|q| q.q.len() == d).map(|q| q.q.iter().map(|v| F::of(*v).f64()).collect()).collect();
+        pts.extend(rows.iter().cloned());
+        if pts.iter().any(|a| rows.iter().any(|b| a.iter().zip(b.iter()).any(|(u, w)| { let df = (u - w).abs(); df > 0.0 && df < lim }))) {
+            tags.push("sq_underflow".into());
+        }
+    }
     if has_k0 { tags.push("has_k0_nonempty".into()); }
     if near_border { tags.push("near_border".into()); }
     if sp.leaf == 0 || d == 0 { tags.push("malformed_build".into()); }
-    if sp.queries.iter().any(|q| q.q.len() != d) { tags.push("malformed_query".into()); }
+    if queries.iter().any(|q| q.q.len() != d) { tags.push("malformed_query".into()); }
     let xs: Vec<Vec<f64>> = sp.x.iter().map(|r| r.iter().map(|v| F::of(*v).f64()).collect()).collect();
     let coq = format!(
         "CS {}%N {} {}%N {}%N {}%N {}%N {} [{}] ({}) {} [{}]",
@@ -312,14 +365,15 @@ fn run_spec<F: Fl, D: Distance<F> + Debug + 'static>(sp: &Spec, dist: D) -> Case
         bstats.iter().map(|b| bstat_coq(*b)).collect::<Vec<_>>().join("; "), tree_coq, cbool(rows_ok), qterms.join(";\n ")
     );
     let desc = format!(
-        "{{\"stream\": {}, \"family\": {}, \"metric\": {}, \"float\": {}, \"n\": {}, \"dim\": {}, \"leaf_size\": {}, \"build\": {:?}, \"X\": {:?}, \"rust_side_suspect_answers\": {}, \"notes\": {:?}, \"queries\": [{}]}}",
+        "{{\"stream\": {}, \"family\": {}, \"metric\": {}, \"float\": {}, \"n\": {}, \"dim\": {}, \"leaf_size\": {}, \"build\": {:?}, \"X\": {:?}, \"rust_side_suspect_answers\": {}, \"aimed_queries\": {}, \"notes\": {:?}, \"queries\": [{}]}}",
         jstr(sp.stream), jstr(&sp.family), jstr(&sp.met.name()), jstr(if F::F32 { "f32" } else { "f64" }), n, d, sp.leaf,
-        bstats.iter().map(|b| bstat_coq(*b)).collect::<Vec<_>>(), xs, suspects, notes, qdesc.join(", ")
+        bstats.iter().map(|b| bstat_coq(*b)).collect::<Vec<_>>(), xs, suspects, aimed, notes, qdesc.join(", ")
     );
     let mut hv: Vec<f64> = xs.concat();
-    for q in sp.queries.iter() { hv.extend(q.q.iter()); hv.extend(q.ks.iter().map(|k| *k as f64)); }
+    for q in queries.iter() { hv.extend(q.q.iter()); hv.extend(q.ks.iter().map(|k| *k as f64)); }
     let hash = fnv_f64s(&hv, sp.met.code() << 16 | (sp.leaf as u64) << 8 | F::F32 as u64);
-    CaseOut { coq, tags, desc, suspects, hash }
+    let (nknn, nrange) = if all_ok { (queries.iter().map(|q| q.ks.len()).sum(), queries.iter().map(|q| q.radii.len()).sum()) } else { (0, 0) };
+    CaseOut { coq, tags, desc, suspects, hash, nqueries: queries.len(), nknn, nrange, aimed, raw_answers }
 }
 
 fn outc_desc(o: &Outc) -> String {
@@ -353,6 +407,69 @@ fn range_plausible<F: Fl>(o: &Outc, rd: &[F], rr: F) -> bool {
         }
         _ => false,
     }
+}
+
+// ---------------------------------------------------------------------------------------------
+// queries aimed at the spheres of the dumped ball tree
+fn mdist(met: Met, a: &[f64], b: &[f64]) -> f64 {
+    match met {
+        Met::L1 => a.iter().zip(b).map(|(x, y)| (x - y).abs()).sum(),
+        Met::L2 => a.iter().zip(b).map(|(x, y)| (x - y) * (x - y)).sum::<f64>().sqrt(),
+        Met::Linf => a.iter().zip(b).fold(0.0, |m, (x, y)| m.max((x - y).abs())),
+        Met::Lp(p) => a.iter().zip(b).map(|(x, y)| (x - y).abs().powf(p)).sum::<f64>().powf(1.0 / p),
+    }
+}
+struct NodeInfo { c: Vec<f64>, r: f64, rows: Vec<usize>, branch: bool, depth: usize }
+fn dt_nodes(t: &DT, depth: usize, out: &mut Vec<NodeInfo>) -> Vec<usize> {
+    match t {
+        DT::Leaf { c, r, rows } => { out.push(NodeInfo { c: c.clone(), r: *r, rows: rows.clone(), branch: false, depth }); rows.clone() }
+        DT::Branch { c, r, l, rt } => {
+            let idx = out.len();
+            out.push(NodeInfo { c: c.clone(), r: *r, rows: vec![], branch: true, depth });
+            let mut rows = dt_nodes(l, depth + 1, out);
+            rows.extend(dt_nodes(rt, depth + 1, out));
+            out[idx].rows = rows.clone();
+            rows
+        }
+    }
+}
+/// For `cnt` nodes of the tree (three quarters branches, at every depth): the stored point of the node that
+/// is farthest from the node's centre (the point that defines the radius; sometimes another one), and a query
+/// just outside the sphere on the ray centre -> that point, at a gap of 1e-11 .. 6e-6 of the point's offset
+/// (f32: 1e-4 .. 6e-3); radii a few ulps / a relative 1e-8 beyond the distance to that point.
+fn aim_queries(t: &DT, x: &[Vec<f64>], met: Met, cnt: usize, seed: u64, f32_: bool, wide: bool) -> Vec<QuerySpec> {
+    let mut r = Sm64::new(seed);
+    let mut nodes = vec![];
+    dt_nodes(t, 0, &mut nodes);
+    let ok = |nd: &NodeInfo| nd.r > 0.0 && nd.r.is_finite() && nd.rows.len() >= 2 && nd.rows.iter().all(|j| *j < x.len() && x[*j].len() == nd.c.len());
+    let mut br: Vec<usize> = (0..nodes.len()).filter(|&i| nodes[i].branch && ok(&nodes[i])).collect();
+    let mut lf: Vec<usize> = (0..nodes.len()).filter(|&i| !nodes[i].branch && ok(&nodes[i])).collect();
+    r.shuffle(&mut br);
+    r.shuffle(&mut lf);
+    // the root and one deepest branch are always among the targets
+    if let Some(pos) = br.iter().position(|&i| nodes[i].depth == 0) { br.swap(0, pos); }
+    if br.len() > 1 { let dmax = br.iter().map(|&i| nodes[i].depth).max().unwrap(); let pos = br.iter().position(|&i| nodes[i].depth == dmax).unwrap(); if pos != 0 { br.swap(1, pos); } }
+    let nb = ((3 * cnt + 3) / 4).min(br.len());
+    let nl = (cnt - nb).min(lf.len());
+    let mut targets: Vec<usize> = br[..nb].to_vec();
+    targets.extend(&lf[..nl]);
+    targets.extend(br[nb..].iter().take(cnt - nb - nl));
+    let mut out = vec![];
+    for &ti in targets.iter() {
+        let nd = &nodes[ti];
+        let mut by: Vec<usize> = nd.rows.clone();
+        by.sort_by(|u, w| mdist(met, &x[*w], &nd.c).partial_cmp(&mdist(met, &x[*u], &nd.c)).unwrap_or(std::cmp::Ordering::Equal));
+        let a = match r.below(5) { 0 => by[1.min(by.len() - 1)], 1 => by[r.below(by.len() as u64) as usize], _ => by[0] };
+        if x[a].iter().zip(nd.c.iter()).all(|(u, w)| u == w) { continue; }
+        let t = (1 + r.below(64)) as f64 * if f32_ { 1.0e-4 } else { *r.pick(&[1.0e-9, 1.0e-9, 1.0e-7, 1.0e-11]) };
+        let q: Vec<f64> = x[a].iter().zip(nd.c.iter()).map(|(u, w)| u + (u - w) * t).collect();
+        let q: Vec<f64> = if f32_ { q.iter().map(|v| *v as f32 as f64).collect() } else { q };
+        let fac = if f32_ { 1.0 + 2.0e-5 } else { 1.0 + 1.0e-8 };
+        let mut radii = vec![RadSpec::DistTo(a, 0, fac), RadSpec::DistTo(a, 2, 1.0), RadSpec::DistTo(a, 0, 1.0), RadSpec::DistTo(a, 64, 1.0)];
+        if wide { for k in [8, 12, 16, 20].iter() { radii.push(RadSpec::DistTo(a, 0, 1.0 + 2.0f64.powi(-k))); } }
+        out.push(QuerySpec { q, ks: vec![1, 2], radii });
+    }
+    out
 }
 
 fn dispatch(sp: &Spec) -> CaseOut {
@@ -477,7 +594,7 @@ fn specs(seed: u64, tier: &str) -> Vec<Spec> {
                     rads = rads.into_iter().enumerate().filter(|(j, _)| (j + si / 2) % 2 == 0).map(|x| x.1).collect();
                 }
                 let queries = qpts.into_iter().map(|q| QuerySpec { q, ks: (0..=n + 1).collect(), radii: rads.clone() }).collect();
-                v.push(Spec { id, stream: "exhaustive", family: format!("small{}d", d), met, f32_: false, x: x.clone(), dim: *d, leaf: *leaf, queries, ship_coords: true });
+                v.push(Spec { id, stream: "exhaustive", family: format!("small{}d", d), met, f32_: false, x: x.clone(), dim: *d, leaf: *leaf, queries, ship_coords: true, aim: None });
                 id += 1;
             }
         }
@@ -498,7 +615,7 @@ fn specs(seed: u64, tier: &str) -> Vec<Spec> {
         let nq = if thorough { 6 } else { 5 };
         let queries = gen_queries(&mut r, family, &x, d, nq);
         let small_case = n * d <= 8;
-        v.push(Spec { id, stream: if matches!(met, Met::Lp(_)) { "lp" } else { "random" }, family: family.into(), met, f32_, x, dim: d, leaf, queries, ship_coords: small_case });
+        v.push(Spec { id, stream: if matches!(met, Met::Lp(_)) { "lp" } else { "random" }, family: family.into(), met, f32_, x, dim: d, leaf, queries, ship_coords: small_case, aim: None });
         id += 1;
     }
     // (c) malformed builds and queries
@@ -506,7 +623,7 @@ fn specs(seed: u64, tier: &str) -> Vec<Spec> {
         for (mi, met) in mets.iter().enumerate() {
             if !thorough && (n + d + leaf + mi) % 2 == 1 { continue; }
             let x: Vec<Vec<f64>> = (0..n).map(|i| (0..d).map(|j| (i * 2 + j) as f64).collect()).collect();
-            v.push(Spec { id, stream: "malformed", family: "malformed_build".into(), met: *met, f32_: mi == 1 && n == 1, x, dim: d, leaf, queries: vec![], ship_coords: false });
+            v.push(Spec { id, stream: "malformed", family: "malformed_build".into(), met: *met, f32_: mi == 1 && n == 1, x, dim: d, leaf, queries: vec![], ship_coords: false, aim: None });
             id += 1;
         }
     }
@@ -520,7 +637,7 @@ fn specs(seed: u64, tier: &str) -> Vec<Spec> {
                 if *qd == d && queries.len() >= 4 { /* one well-formed query among them */ }
                 queries.push(QuerySpec { q: (0..*qd).map(|j| j as f64).collect(), ks: vec![0, 1, n + 1], radii: vec![RadSpec::Abs(0.0), RadSpec::Abs(2.0)] });
             }
-            v.push(Spec { id, stream: "malformed", family: "malformed_query".into(), met: *met, f32_: false, x, dim: d, leaf, queries, ship_coords: false });
+            v.push(Spec { id, stream: "malformed", family: "malformed_query".into(), met: *met, f32_: false, x, dim: d, leaf, queries, ship_coords: false, aim: None });
             id += 1;
         }
     }
@@ -533,7 +650,7 @@ fn specs(seed: u64, tier: &str) -> Vec<Spec> {
     ].iter() {
         for met in mets.iter() {
             v.push(Spec { id, stream: "corpus", family: "corpus".into(), met: *met, f32_: false, x: x.clone(), dim: 2, leaf: *leaf,
-                          queries: vec![QuerySpec { q: q.clone(), ks: vec![0, 1, 2, 3], radii: radii.clone() }], ship_coords: true });
+                          queries: vec![QuerySpec { q: q.clone(), ks: vec![0, 1, 2, 3], radii: radii.clone() }], ship_coords: true, aim: None });
             id += 1;
         }
     }
@@ -574,7 +691,82 @@ fn specs(seed: u64, tier: &str) -> Vec<Spec> {
             let fac = if f32_ { 1.0 + 2.0e-5 } else { 1.0 + 1.0e-8 };
             queries.push(QuerySpec { q, ks: vec![1, 2], radii: vec![RadSpec::DistTo(a, 0, fac), RadSpec::DistTo(a, 2, 1.0), RadSpec::DistTo(a, 0, 1.0), RadSpec::DistTo(a, 64, 1.0)] });
         }
-        v.push(Spec { id, stream: "surface", family: "surface".into(), met, f32_, x, dim: d, leaf, queries, ship_coords: n * d <= 8 });
+        v.push(Spec { id, stream: "surface", family: "surface".into(), met, f32_, x, dim: d, leaf, queries, ship_coords: n * d <= 8, aim: None });
+        id += 1;
+    }
+    // (f) the same construction for the nodes of deeper trees: 12..64 points, leaf size 2..4; the queries are
+    //     aimed at the spheres (centres, radii, members) read from the Debug dump of the tree the
+    //     implementation builds, see aim_queries; two ordinary queries per case come along
+    let ndeep = if thorough { 260 } else { 44 };
+    for i in 0..ndeep {
+        let mut r = rng.fork();
+        let f32_ = i % 8 == 7;
+        let d = match i % 5 { 0 => 1, 1 | 2 => 2, 3 => 3, _ => 2 + r.below(4) as usize };
+        let n = if f32_ { 8 + r.below(17) as usize } else { 12 + r.below(53) as usize };
+        let (family, x): (&str, Vec<Vec<f64>>) = match r.below(4) {
+            0 => ("deep_lattice", (0..n).map(|_| (0..d).map(|_| r.range(-6, 6) as f64).collect()).collect()),
+            1 => ("deep_blobs", { let nb = 2 + r.below(3) as usize; let cs: Vec<Vec<f64>> = (0..nb).map(|_| (0..d).map(|_| r.range(-8, 8) as f64).collect()).collect();
+                                  (0..n).map(|j| cs[j % nb].iter().map(|c| c + 0.75 * r.gauss()).collect()).collect() }),
+            _ => ("deep_uniform", (0..n).map(|_| (0..d).map(|_| 8.0 * r.unit() - 4.0).collect()).collect()),
+        };
+        let x: Vec<Vec<f64>> = if f32_ { x.iter().map(|p| p.iter().map(|v| *v as f32 as f64).collect()).collect() } else { x };
+        let leaf = 2 + r.below(3) as usize;
+        let met = match r.below(10) { 0 | 1 => Met::L1, 2 | 3 => Met::Linf, 4 => Met::Lp(3.0), _ => Met::L2 };
+        let queries = gen_queries(&mut r, if family == "deep_lattice" { "lattice" } else { "uniform" }, &x, d, 2);
+        let seed2 = r.next();
+        v.push(Spec { id, stream: "deep_surface", family: family.into(), met, f32_, x, dim: d, leaf, queries, ship_coords: false, aim: Some((if f32_ { 6 } else { 8 }, seed2)) });
+        id += 1;
+    }
+    // (g) k-nearest across a narrow gap: two leaves {a, a'} and {b, b'} of non-zero radius face each other
+    //     across a gap of 2g (g = 1e-5 .. 1e-8 of the ball size); the query sits in the gap so that the border
+    //     point a is nearer than b by a relative 1e-9 .. 1e-12 only.  The early exit of the search
+    //     (bound of the other ball >= worst distance found) then decides on the rounding of the two bounds.
+    let ngap = if thorough { 180 } else { 30 };
+    for i in 0..ngap {
+        let mut r = rng.fork();
+        let d = 1 + (i % 3);
+        // direction with small integer components, first one non-zero
+        let e: Vec<f64> = (0..d).map(|c| if c == 0 { *r.pick(&[1.0, 2.0, 3.0]) } else { r.range(-2, 2) as f64 }).collect();
+        let q0: Vec<f64> = (0..d).map(|_| r.range(-2, 2) as f64 * 0.25).collect();
+        let g = *r.pick(&[1.0e-5, 1.0e-6, 1.0e-7, 1.0e-7, 1.0e-8]);
+        let delta = *r.pick(&[1.0e-9, 1.0e-10, 1.0e-10, 1.0e-11, 1.0e-12]);
+        let (s1, s2) = (*r.pick(&[0.5, 1.0, 2.0]), *r.pick(&[0.5, 1.0, 1.5]));
+        let at = |t: f64| -> Vec<f64> { q0.iter().zip(e.iter()).map(|(q, e)| q + t * e).collect() };
+        let mut x = vec![at(-g), at(-g - s1), at(g * (1.0 + delta)), at(g * (1.0 + delta) + s2)];
+        if i % 4 == 3 { x.push(at(-g - 2.0 * s1)); x.push(at(g + 2.0 * s2)); }
+        let leaf = if x.len() == 4 { 2 } else { *r.pick(&[2usize, 3]) };
+        let met = match r.below(6) { 0 => Met::L1, 1 => Met::Linf, _ => Met::L2 };
+        let mut queries = vec![];
+        for tau in [0.0, 0.25, -0.25, 0.5, 0.75, -1.0].iter() {
+            queries.push(QuerySpec { q: at(tau * g * delta), ks: vec![1, 2, 3], radii: vec![RadSpec::DistTo(0, 2, 1.0), RadSpec::DistTo(2, 2, 1.0), RadSpec::DistTo(2, 0, 1.0)] });
+        }
+        v.push(Spec { id, stream: "knn_gap", family: "knn_gap".into(), met, f32_: false, x, dim: d, leaf, queries, ship_coords: false, aim: None });
+        id += 1;
+    }
+    // (h) tiny scales: coordinates around 2^-500 .. 2^-1060, where squared differences fall below the normal
+    //     range (the regime that the float-level theorems of C07/PropertiesFloat.v exclude); queries aimed at
+    //     the dumped nodes with radii up to a relative 2^-8 beyond the border point (the quantum of a squared
+    //     distance is 2^-1074 there), and the minimal input of finding F-C07-1
+    v.push(Spec { id, stream: "tiny_scale", family: "tiny_witness".into(), met: Met::L2, f32_: false,
+                  x: vec![vec![0.0], vec![60.0 * 2.0f64.powi(-537)]], dim: 1, leaf: 2,
+                  queries: vec![QuerySpec { q: vec![60.7002 * 2.0f64.powi(-537)], ks: vec![1, 2], radii: vec![RadSpec::Abs(2.0f64.powi(-537)), RadSpec::Abs(2.0f64.powi(-536))] }],
+                  ship_coords: true, aim: None });
+    id += 1;
+    let ntiny = if thorough { 200 } else { 28 };
+    for i in 0..ntiny {
+        let mut r = rng.fork();
+        let d = 1 + (i % 3);
+        let n = 2 + r.below(12) as usize;
+        let sc = *r.pick(&[2.0f64.powi(-500), 2.0f64.powi(-520), 2.0f64.powi(-530), 2.0f64.powi(-536), 2.0f64.powi(-1000), 2.0f64.powi(-1060)]);
+        let x: Vec<Vec<f64>> = (0..n).map(|_| (0..d).map(|_| (r.range(-64, 64) as f64 + if r.below(2) == 0 { 0.0 } else { r.unit() }) * sc).collect()).collect();
+        let leaf = *r.pick(&[1usize, 2, 3]);
+        let met = match r.below(4) { 0 => Met::L1, 1 => Met::Linf, _ => Met::L2 };
+        let mut queries = gen_queries(&mut r, "lattice", &x, d, 3);
+        for qs in queries.iter_mut() {
+            if !x.iter().any(|p| *p == qs.q) && qs.q.iter().all(|v| v.abs() >= 0.25 || *v == 0.0) { for v in qs.q.iter_mut() { *v *= sc; } }
+            for rs in qs.radii.iter_mut() { if let RadSpec::Abs(a) = rs { *rs = RadSpec::Abs(*a * sc * 16.0); } }
+        }
+        v.push(Spec { id, stream: "tiny_scale", family: "tiny_scale".into(), met, f32_: false, x, dim: d, leaf, queries, ship_coords: false, aim: Some((6, r.next())) });
         id += 1;
     }
     v
@@ -609,17 +801,19 @@ fn work(args: &Args, skip: &[u64], crashed: &[(u64, String)], stop_before: Optio
         out.bump(&format!("dim_{}", if sp.dim >= 8 { "ge8".to_string() } else { sp.dim.to_string() }));
         out.bump(&format!("n_{}", match sp.x.len() { 0 => "0", 1 => "1", 2..=4 => "2to4", 5..=15 => "5to15", _ => "ge16" }));
         out.bump(if sp.f32_ { "float_f32" } else { "float_f64" });
-        out.bump_by("queries", sp.queries.len() as u64);
-        out.bump_by("knn_answers", 3 * sp.queries.iter().map(|q| q.ks.len()).sum::<usize>() as u64);
-        out.bump_by("range_answers", 3 * sp.queries.iter().map(|q| q.radii.len()).sum::<usize>() as u64);
-        for t in c.tags.iter() { if t == "near_border" || t == "has_k0_nonempty" { out.bump(&format!("tag_{}", t)); } }
+        out.bump_by("queries", c.nqueries as u64);
+        out.bump_by("knn_answers", 3 * c.nknn as u64);
+        out.bump_by("range_answers", 3 * c.nrange as u64);
+        out.bump_by("queries_aimed_at_dumped_nodes", c.aimed as u64);
+        out.bump_by("kdtree_crate_raw_answers", c.raw_answers as u64);
+        for t in c.tags.iter() { if t == "near_border" || t == "has_k0_nonempty" || t == "sq_underflow" { out.bump(&format!("tag_{}", t)); } }
         if c.suspects > 0 { out.bump("cases_with_rust_side_suspects"); }
         let tagrefs: Vec<&str> = c.tags.iter().map(|s| s.as_str()).collect();
         let distinct = { let mut u: Vec<Vec<u64>> = sp.x.iter().map(|r| r.iter().map(|f| f.to_bits()).collect()).collect(); u.sort(); u.dedup(); u.len() };
-        let key = if sp.x.len() >= 2 && distinct >= 1 && !sp.queries.is_empty() { Some(c.hash) } else { None };
+        let key = if sp.x.len() >= 2 && distinct >= 1 && c.nqueries > 0 { Some(c.hash) } else { None };
         out.case(sp.id, &c.coq, &tagrefs, &c.desc, key);
     }
-    out.finish("point sets: exhaustive over {0,1,2}^1 (n<=4) and {0,1}^2 (n<=3) x leaf size {1,2}; random from 8 families (integer lattice, all-equal, heavy duplicates, Gaussian blobs, uniform cloud, collinear lattice, fractional lattice, large offset), dimension 1..16, f64 and f32, leaf sizes 1,2,3,4,16,n, metrics L1/L2/Linf/Lp; queries: stored points, lattice points, midpoints, mirror images (sphere borders), far points; k in {0,1,2,n/2,n-1,n,n+1,n+2}; radii 0, computed distances to stored points (+-1 ulp, halves), beyond the diameter; malformed builds/queries; a case is non-trivial when it has >= 2 points and >= 1 query; distinct = distinct (points, metric, leaf size, queries) hashes");
+    out.finish("point sets: exhaustive over {0,1,2}^1 (n<=4) and {0,1}^2 (n<=3) x leaf size {1,2}; random from 8 families (integer lattice, all-equal, heavy duplicates, Gaussian blobs, uniform cloud, collinear lattice, fractional lattice, large offset), dimension 1..16, f64 and f32, leaf sizes 1,2,3,4,16,n, metrics L1/L2/Linf/Lp; queries: stored points, lattice points, midpoints, mirror images (sphere borders), far points; k in {0,1,2,n/2,n-1,n,n+1,n+2}; radii 0, computed distances to stored points (+-1 ulp, halves), beyond the diameter; near-surface queries (just outside a ball, on the ray centre -> border point, radii a few ulps beyond that point) for small batches and, aimed through the Debug dump of the implementation's tree, for the branch and leaf nodes of trees over 12..64 points with leaf size 2..4; tiny scales (coordinates 2^-500 .. 2^-1060, squared distances below the normal range); k-nearest queries in a narrow gap between two balls whose border points differ in distance by a relative 1e-9..1e-12; the raw answers of the kdtree crate (nearest / within on a tree built like KdTreeIndex::new) for every well-formed query; malformed builds/queries; a case is non-trivial when it has >= 2 points and >= 1 query; distinct = distinct (points, metric, leaf size, queries) hashes");
 }
 
 fn main() {
